@@ -2,6 +2,8 @@
 
 from __future__ import annotations
 
+import re
+
 from hypothesis import strategies as st
 
 from vf import common, gen, model, xform
@@ -177,6 +179,11 @@ def evaluate(case) -> Outcome:
     for ns in actual:
         if ns not in exp:
             out.fail("C05.bind-extra", _kind(root, ns), f"unexpected bind for {ns}: {actual[ns]}")
+    # attributes under an author-declared prefix are reported by the reader under the namespace name
+    declared = dict(re.findall(r'([^\s=]+)\s*=\s*"([^"]*)"', form.get("settings", {}).get("namespaces", "") or ""))
+    for ns, ea in exp.items():
+        for k in [k for k in ea if ":" in k and k.split(":", 1)[0] in declared]:
+            ea["{%s}%s" % (declared[k.split(":", 1)[0]], k.split(":", 1)[1])] = ea.pop(k)
     for ns, ea in exp.items():
         aa = actual.get(ns)
         if aa is None:
